@@ -373,7 +373,11 @@ def run_case(ctx: Ctx, rng, stream, reqs, forced=None):
         if obs["exc"] is None:
             mb = D(obs["ret"])
             want = (E0.weighted_ltv - E0.total_debt) * F(99, 100) / F(obs["rows"][tok]["p"])
-            if not close(F(mb), want, abs_tol=TOL * (E0.weighted_ltv + E0.total_debt) / F(obs["rows"][tok]["p"])):
+            if not mb.is_finite():
+                # a non-finite figure from the implementation is an observation to judge, never a reason for the harness to stop
+                out.append(("max_borrow.value", f"get_max_borrow_amount = {mb} (not finite), definition gives {float(want)}"))
+                mb = D(0)
+            elif not close(F(mb), want, abs_tol=TOL * (E0.weighted_ltv + E0.total_debt) / F(obs["rows"][tok]["p"])):
                 out.append(("max_borrow.value", f"get_max_borrow_amount = {mb}, definition gives {float(want)}"))
             if mb > 0 and obs["rows"][tok]["cb"]:
                 o2 = call(case, lambda m, t: m.borrow(t[tok], mb))
@@ -401,6 +405,9 @@ def run_case(ctx: Ctx, rng, stream, reqs, forced=None):
         if obs["exc"] is None:
             mw = D(obs["ret"])
             bal = E0.sup_amount(tok)
+            if not mw.is_finite():
+                out.append(("max_withdraw.exceeds-supply", f"get_max_withdraw_amount({tok}) = {mw} (not finite), supplied {float(bal)}"))
+                mw = D(0)
             if F(mw) > bal * (1 + TOL):
                 out.append(("max_withdraw.exceeds-supply", f"get_max_withdraw_amount({tok}) = {mw} exceeds the supplied {float(bal)}"))
             if mw > 0:
@@ -583,7 +590,7 @@ def run_sequence(ctx: Ctx, rng, reqs, forced=None):
             reqs.append((rep, obs, {"fn": "maxWithdraw", "tok": tok}))
             if obs["exc"] is None:
                 E0 = Exact(obs["S0"], obs["rows"])
-                if F(D(obs["ret"])) > E0.sup_amount(tok) * (1 + TOL):
+                if not D(obs["ret"]).is_finite() or F(D(obs["ret"])) > E0.sup_amount(tok) * (1 + TOL):
                     out.append(("max_withdraw.exceeds-supply", f"get_max_withdraw_amount({tok}) = {obs['ret']} exceeds the supplied {float(E0.sup_amount(tok))}"))
         elif op == "max_borrow":
             obs = call_live(m, b, toks, acts, names, lambda mm, t: mm.get_max_borrow_amount(t[tok]), spec["warm"])
@@ -591,7 +598,7 @@ def run_sequence(ctx: Ctx, rng, reqs, forced=None):
             if obs["exc"] is None:
                 E0 = Exact(obs["S0"], obs["rows"])
                 want = (E0.weighted_ltv - E0.total_debt) * F(99, 100) / F(obs["rows"][tok]["p"])
-                if not close(F(D(obs["ret"])), want, abs_tol=TOL * (E0.weighted_ltv + E0.total_debt) / F(obs["rows"][tok]["p"])):
+                if not D(obs["ret"]).is_finite() or not close(F(D(obs["ret"])), want, abs_tol=TOL * (E0.weighted_ltv + E0.total_debt) / F(obs["rows"][tok]["p"])):
                     out.append(("max_borrow.value", f"get_max_borrow_amount = {obs['ret']}, definition gives {float(want)}"))
         else:
             ct = spec.get("collTok")
@@ -633,7 +640,7 @@ def compare(ctx: Ctx, rep, obs, req, ans):
             bad(f"cause: impl {obs['cause']} model {ans['cause']}")
         return
     if req["fn"] in ("maxBorrow", "maxWithdraw"):
-        if F(ans["amount"]) != F(D(obs["ret"])):
+        if not D(obs["ret"]).is_finite() or F(ans["amount"]) != F(D(obs["ret"])):
             bad(f"helper amount: impl {obs['ret']} model {ans['amount']}")
         return
     ms = [[s["tok"], F(s["base"]), s["coll"]] for s in ans["state"]["supplies"]]
